@@ -15,8 +15,8 @@
     [subtree_t t pp]: the node of the forest tree [t] the path [pp] (child indices) leads to. *)
 From CJ Require Import Base Dbl Heap Forest ForestLemmas CoreDefs CoreRefineDupValue CoreLedgerGen.
 From CJ Require Import TierBridgeDefs MergeHeapDefs MergeHeapInv MergeHeapEx
-  PatchHeapDefs PatchHeapPath PatchHeapPointer PatchHeapEx.
-From CJ Require Tree PointerDefs PatchDefs SortSpec.
+  PatchHeapDefs PatchHeapPath PatchHeapPointer PatchHeapStr PatchHeapSteps PatchHeapDetach PatchHeapEx.
+From CJ Require Tree PointerDefs PatchDefs SortSpec CoreOps.
 From CJ.gen Require Import Constants.
 From stdpp Require Import gmap.
 Local Open Scope Z_scope.
@@ -88,3 +88,83 @@ Theorem C16_heap_pointer_nonvacuous :
   get_item_from_pointer (Some 1%positive) (CAt 201 0) true px_heap = Ret (Some 5%positive, px_heap).
 Proof. exact px_stage1. Qed.
 Print Assumptions C16_heap_pointer_nonvacuous.
+
+(** ------------------------------------------------------------------ 2. detach_path *)
+
+(** the functions of cJSON.c that receive [child_pointer] (a pointer INTO the copy of the path) or a string literal
+    are transliterated with a [cstring] argument; on a block pointer they are the functions of CoreDefs.v *)
+Theorem C16_heap_string_functions_are_core : forall oracle (o n i : ptr) flag h,
+  get_object_item_s o (cs_of_ptr n) flag h = get_object_item o n flag h /\
+  cJSON_DetachItemFromObject_s o (cs_of_ptr n) h = cJSON_DetachItemFromObject o n h /\
+  cJSON_DetachItemFromObjectCaseSensitive_s o (cs_of_ptr n) h = cJSON_DetachItemFromObjectCaseSensitive o n h /\
+  cJSON_DeleteItemFromObject_s o (cs_of_ptr n) h = cJSON_DeleteItemFromObject o n h /\
+  cJSON_DeleteItemFromObjectCaseSensitive_s o (cs_of_ptr n) h = cJSON_DeleteItemFromObjectCaseSensitive o n h /\
+  cJSON_AddItemToObject_s oracle o (cs_of_ptr n) i h = cJSON_AddItemToObject oracle o n i h.
+Proof.
+  exact (fun oracle o n i flag h =>
+    conj (get_object_item_s_block o n flag h)
+      (conj (proj1 (cJSON_DetachItemFromObject_s_block o n h))
+        (conj (proj1 (proj2 (cJSON_DetachItemFromObject_s_block o n h)))
+          (conj (proj1 (proj2 (proj2 (cJSON_DetachItemFromObject_s_block o n h))))
+            (conj (proj2 (proj2 (proj2 (cJSON_DetachItemFromObject_s_block o n h))))
+              (cJSON_AddItemToObject_s_block oracle o n i h)))))).
+Qed.
+Print Assumptions C16_heap_string_functions_are_core.
+
+(** what the value-level result of [detach_path] says about the heap-level result: [Ok None] — NULL, forest
+    unchanged; [Ok (Some (it, doc'))] — the item [m] (the [j]-th child of the node at path [pp]) is returned as a new
+    last root, the document is [put_t doc pp (…without that child)], and both reify to the value-level results;
+    the value-level model does not return OOB / OutOfFuel *)
+Theorem C16_heap_detach_post_is : forall St G doc r F' v,
+  detach_post St G doc r F' v <->
+  match v with
+  | Ok None => r = None /\ F' = G ++ [doc]
+  | Ok (Some (it, doc')) =>
+      exists m pp p d cs (j : nat),
+        r = Some (tid m) /\ subtree_t doc pp = Some (T p d cs) /\ cs !! j = Some m /\
+        F' = (G ++ [put_t doc pp (T p d (delete j cs))]) ++ [m] /\
+        reify St m = it /\ reify St (put_t doc pp (T p d (delete j cs))) = doc'
+  | _ => False
+  end.
+Proof. exact (fun St G doc r F' v => conj (fun H => H) (fun H => H)). Qed.
+
+(** STAGE 2.  [detach_path(object, path, case_sensitive)], document = last root of [G ++ [doc]], the path held in
+    the readable string block [pb], never-failing allocator: the run returns normally; the string heap afterwards
+    IS the string heap before (the copy of the path is allocated, split at the last '/', decoded in place and
+    released on EVERY exit); the invariant holds for the new forest, in which [G] is literally unchanged; NoLeak is
+    preserved; one fresh identity was consumed; and the result is the value-level one ([detach_post]). *)
+Theorem C16_heap_detach_path : forall h G doc pb (sp : bytes) flag,
+  MInv h (G ++ [doc]) -> pb ∈ h_live h -> h_str h !! pb = Some sp -> existsb (Z.eqb 0) sp = true ->
+  exists h' r F',
+    detach_path nofail (Some (tid doc)) (Some pb) flag h = Ret (r, h') /\
+    MInv h' F' /\ h_str h' = h_str h /\ (NoLeak h (G ++ [doc]) -> NoLeak h' F') /\ h_next h' = Pos.succ (h_next h) /\
+    detach_post (h_str h) G doc r F' (PatchDefs.detach_path (reify (h_str h) doc) (cstr sp) flag).
+Proof. exact detach_path_refines. Qed.
+Print Assumptions C16_heap_detach_path.
+
+(** non-vacuity: the same concrete heap; "/a/1/b~0" detaches a member of a nested object (the token is decoded in
+    place to "b~"), "/a/2" finds nothing; document and item read back from the result heap by the structural
+    walk of CoreOps.v; the ledger is unchanged (the copy of the path is gone) *)
+Theorem C16_heap_detach_example_runs :
+  out_val px_det1 = Some (Some 5%positive) /\
+  out_val (CoreOps.dump_node 50 (Some 1%positive) (px_heap_of px_det1)) = Some (Some (px_doc1, true)) /\
+  out_val (CoreOps.dump_node 50 (Some 5%positive) (px_heap_of px_det1)) = Some (Some (px_num 5 (Some [98; 126]), true)) /\
+  bool_decide (lib_live (px_heap_of px_det1) = lib_live px_heap) = true /\
+  out_val px_det2 = Some None /\
+  out_val (CoreOps.dump_node 50 (Some 1%positive) (px_heap_of px_det2)) = Some (Some (reify px_St px_doc, true)) /\
+  bool_decide (lib_live (px_heap_of px_det2) = lib_live px_heap) = true /\
+  out_val px_det3 = Some (Some 7%positive).
+Proof. exact px_detach_runs. Qed.
+Theorem C16_heap_detach_example_values :
+  PatchDefs.detach_path (reify px_St px_doc) [47; 97; 47; 49; 47; 98; 126; 48] true = Ok (Some (px_num 5 (Some [98; 126]), px_doc1)) /\
+  PatchDefs.detach_path (reify px_St px_doc) [47; 97; 47; 50] true = Ok None.
+Proof. exact px_detach_values. Qed.
+Theorem C16_heap_detach_nonvacuous :
+  MInv px_heap ([px_ptrs] ++ [px_doc]) /\ NoLeak px_heap ([px_ptrs] ++ [px_doc]) /\
+  201%positive ∈ h_live px_heap /\ h_str px_heap !! 201%positive = Some [47; 97; 47; 49; 47; 98; 126; 48; 0] /\
+  exists h' r F',
+    detach_path nofail (Some (tid px_doc)) (Some 201%positive) true px_heap = Ret (r, h') /\
+    MInv h' F' /\ h_str h' = h_str px_heap /\ NoLeak h' F' /\
+    detach_post (h_str px_heap) [px_ptrs] px_doc r F' (Ok (Some (px_num 5 (Some [98; 126]), px_doc1))).
+Proof. exact px_stage2. Qed.
+Print Assumptions C16_heap_detach_nonvacuous.
